@@ -330,6 +330,9 @@ Definition srun (st : sstate) (ls : list line) : sstate := fold_left sstep ls st
 Definition file_groups (ls : list line) : list gobs :=
   let st := srun sinit ls in s_done st ++ [sclose st].
 
+Definition lib_names (ls : list line) : name :=
+  flat_map (fun l => match l with MtlLib n => n | _ => [] end) ls.
+
 (* ---------- validity of a file / well-formedness of a mesh (executable) ---------- *)
 Definition idx_ok (n : nat) (z : Z) : bool := (1 <=? z)%Z && (z <=? Z.of_nat n)%Z.
 Definition oidx_ok (n : nat) (o : option Z) : bool := match o with None => true | Some z => idx_ok n z end.
